@@ -126,6 +126,18 @@ func TestWorker(t *testing.T) {
 			}
 		}
 		_ = enc.Encode(map[string]any{"kind": "flaky-summary", "divergent": n, "of": job.MaxRuns})
+	case "selfcheck":
+		// one spec: the search run against the replay of its own tape, first difference
+		spec := *job.Spec
+		spec.KeepTrace = true
+		spec.Replay = nil
+		first := Execute(t, spec)
+		spec.Replay = first.Tape
+		if spec.Replay == nil {
+			spec.Replay = []int{}
+		}
+		second := Execute(t, spec)
+		_ = enc.Encode(map[string]any{"kind": "selfcheck", "equal": first.Hash == second.Hash, "steps": []int{first.Steps, second.Steps}, "diff": firstDiffCtx(first.Trace, second.Trace, 30)})
 	case "replay":
 		spec := *job.Spec
 		spec.KeepTrace = true
